@@ -900,9 +900,9 @@ def run(ctx):
                 bad = "ci-refusal"
             else:
                 lo, hi, w = pv(toks[3]), pv(toks[4]), pv(toks[5])
-                if not (all(close(a, float(b), 1e-11) for a, b in zip(fl(ci[0]), lo)) and all(close(a, float(b), 1e-11) for a, b in zip(fl(ci[1]), hi))):
+                if not (all(close(a, float(b), t2) for a, b in zip(fl(ci[0]), lo)) and all(close(a, float(b), t2) for a, b in zip(fl(ci[1]), hi))):
                     bad = "ci"
-                elif not all(close(a, float(b), 1e-10) for a, b in zip(fl(width), w)):
+                elif not all(close(a, float(b), 10 * t2) for a, b in zip(fl(width), w)):
                     bad = "ci-width"
         if bad:
             ctx.disagree(fkey(ctx, nf, key + ":" + bad), desc, out[:300], str([np.asarray(x).tolist() for x in (mean, var, med)])[:300] + f" ci={ci_err or np.asarray(ci).tolist()}", f"{bad} differs between model and implementation")
